@@ -208,6 +208,8 @@ def sub_lins(a):
         return tuple(out)
     if k == "cnt":
         return tuple(_seq_lins(a[1]))
+    if k == "opq" and isinstance(a[1], tuple):
+        return tuple(_seq_lins(a[1]))
     return ()
 
 
@@ -293,6 +295,8 @@ def subst_atom(a, mapping):
         return ("ps", _subst_seq(a[1], mapping), a[2], _subst_key(a[3], mapping))
     if k == "cnt":
         return ("cnt", _subst_seq(a[1], mapping))
+    if k == "opq" and isinstance(a[1], tuple):
+        return ("opq", _subst_seq(a[1], mapping), a[2])
     return a
 
 
